@@ -183,6 +183,12 @@ func (s *MuxSim) Step(i int, op *MuxOp) *CallRec {
 	log := s.Out.Log
 	switch op.Op {
 	case "add":
+		if op.PID != 0 && s.pmtPID >= 0 && int(op.PID) == s.pmtPID {
+			// scope: an explicit PID equal to the (learned) PMT PID is a caller error
+			rec.Skipped = true
+			s.Out.Probe("skipped-pmt-pid")
+			return rec
+		}
 		es := astits.PMTElementaryStream{ElementaryPID: op.PID, StreamType: astits.StreamType(op.Type)}
 		for _, d := range op.Descs {
 			es.ElementaryStreamDescriptors = append(es.ElementaryStreamDescriptors, d.ToAstits())
@@ -681,10 +687,13 @@ func (s *MuxSim) stepPacket(i int, op *MuxOp, rec *CallRec) {
 		size += ps.PayloadLen
 	}
 	fits := size <= refts.PacketSize
+	// a stale Payload slice on a packet flagged as carrying none: rejecting it when it would not
+	// fit is as acceptable as ignoring it
+	staleOversize := !ps.HasPayload && size+ps.Stale > refts.PacketSize
 	if rec.Err != nil {
 		s.Out.Probe("packet-rejected")
 		s.rejectedWroteNothing(rec, "WritePacket")
-		if fits {
+		if fits && !staleOversize {
 			s.v("C04", "packet-rejected", "", "call %d: WritePacket failed with %v for a packet of %d bytes", i, rec.Err, size)
 		}
 		return
